@@ -98,6 +98,20 @@ def run(chk):
             chk.count(1, key=("integer-sigma",))
             if not np.allclose(wi_, wf_, rtol=1e-12, atol=1e-14):
                 chk.fail("the i-vector under integer-typed covariances %s differs from the one under the same values as floats" % sig_i.tolist(), dict(ctx, sigma_int=sig_i.tolist()))
+        # partial E-step statistics combined with the public `+`: operands untouched, sums of different pairs independent, total = E-step of the pool
+        if i % 7 == 2 and len(stats) >= 3:
+            from bob.learn.em import ivector as iv_module_
+            mp_ = iv.with_params(ubm, T, sigma, t)
+            parts_ = [iv_module_.e_step(mp_, [q_]) for q_ in stats[:3]]
+            flds_ = [k_ for k_ in ("nij_sigma_wij2", "fnorm_sigma_wij", "snormij", "nij") if hasattr(parts_[0], k_)]
+            keep_ = [{k_: np.array(getattr(p_, k_), copy=True) for k_ in flds_} for p_ in parts_]
+            s01_, s02_ = parts_[0] + parts_[1], parts_[0] + parts_[2]
+            pool02_ = iv_module_.e_step(mp_, [stats[0], stats[2]])
+            chk.count(1, key=("IVectorStats +",))
+            if any(not np.array_equal(np.asarray(getattr(p_, k_)), v_) for p_, kp_ in zip(parts_, keep_) for k_, v_ in kp_.items()):
+                chk.fail("adding two partial i-vector E-step statistics with + modifies an operand", ctx)
+            elif not all(np.allclose(np.asarray(getattr(s02_, k_)), np.asarray(getattr(pool02_, k_)), rtol=1e-10, atol=1e-12) for k_ in flds_):
+                chk.fail("the sum p0 + p2 of partial i-vector E-step statistics (taken after p0 + p1) differs from the E-step of the pooled utterances 0 and 2", ctx)
         # one E-step, two M-steps from the same statistics object: the statistics are not consumed
         if i % 7 == 5:
             from bob.learn.em import ivector as iv_module
